@@ -276,6 +276,19 @@ func c13(c *ev.Ctx) {
 		cases = append(cases, pcase{fmt.Sprintf("l2/%d", ci), "local outside a function " + ctx.name, ctx.pre + c13LocalFrag + ctx.post})
 		cases = append(cases, pcase{fmt.Sprintf("l3/%d", ci), "local outside a function (in an if) " + ctx.name, ctx.pre + "if (c1) { " + c13LocalFrag + " }" + ctx.post})
 	}
+	// an unterminated regexp (or string) as the first thing after a closing brace: whether a
+	// slash there divides or opens a regexp is the lexer's decision
+	for bi, brace := range []string{"if (c1) { y = 1; } ", "if (c1) { y = 1; } else { y = 2; } ", "while (c2) { c2 = false; } ", "foreach e in [1] { y = e; } ", "switch (c1) { case 1 { y = 1; } } ", "function o8() { return 1; } ", `y = {"k": 1} `, `y = [{"k": 1} `} {
+		for fi, frag := range []string{"/abc ~= x;", "/abc;", "/abc", "/ abc ~= x; y = 3;", "/=abc;", `"abc;`, "'abc"} {
+			for ci, ctx := range c13StmtCtx {
+				post := ctx.post
+				if bi == 7 {
+					post = "]; " + post
+				}
+				cases = append(cases, pcase{fmt.Sprintf("b1/%d/%d/%d", bi, fi, ci), "unterminated literal right after a closing brace in " + ctx.name, ctx.pre + brace + frag + post})
+			}
+		}
+	}
 	for fi, f := range c13ExprFrags {
 		for ei, ectx := range c13ExprCtx {
 			stmt := ectx.pre + f.text + ectx.post
